@@ -187,10 +187,11 @@ theorem lower_on (r : CHPR) (hwf : CommitWF r) (hon : r.incOn = true) (t : Nat) 
   · simp only [hon, hs, and_self, if_true, true_and]
     by_cases hc : 1 < r.R ∧ 0 < r.tar ∧ r.tar < r.R
     · rw [if_pos hc, getD_setSlice, getD_blk2 P o r.T 0 0 hP t ht]
-      simp [hP, hc, ht]
+      have hl : o + t < (P ++ List.replicate r.T (0 : Rat) ++ List.replicate r.T (0 : Rat)).length := by
+        simp [hP] <;> omega
       by_cases h : t < r.R - r.tar
-      · rw [if_pos (by omega), if_pos h]
-      · rw [if_neg (by omega), if_neg h]
+      · rw [if_pos ⟨by omega, by omega, hl⟩, if_pos ⟨hc.1, hc.2.1, hc.2.2, h⟩]
+      · rw [if_neg (fun h' => h (by have := h'.2.1; omega)), if_neg (fun h' => h h'.2.2.2)]
     · rw [if_neg hc, getD_blk2 P o r.T 0 0 hP t ht]
       rw [if_neg (by intro h; exact hc ⟨h.1, h.2.1, h.2.2.1⟩)]
   · have hs' : r.incStart = false := by simpa using hs
@@ -210,17 +211,19 @@ theorem upper_on (r : CHPR) (hwf : CommitWF r) (hon : r.incOn = true) (t : Nat) 
     by_cases hs : r.incStart = true
     · simp only [hon, hs, and_self, if_true]
       rw [getD_blk2 P o r.T 1 1 hP t ht]
-      simp [hP, hc]
+      have hl : o + t < (P ++ List.replicate r.T (1 : Rat) ++ List.replicate r.T (1 : Rat)).length := by
+        simp [hP] <;> omega
       by_cases h : t < r.D - r.tao
-      · rw [if_pos (by omega), if_pos h]
-      · rw [if_neg (by omega), if_neg h]
+      · rw [if_pos ⟨by omega, by omega, hl⟩, if_pos ⟨hc.1, hc.2.1, hc.2.2, h⟩]
+      · rw [if_neg (fun h' => h (by have := h'.2.1; omega)), if_neg (fun h' => h h'.2.2.2)]
     · have hs' : r.incStart = false := by simpa using hs
       simp only [hon, hs', Bool.false_eq_true, and_false, ↓reduceIte]
       rw [getD_blk1 P o r.T 1 hP t ht]
-      simp [hP, hc]
+      have hl : o + t < (P ++ List.replicate r.T (1 : Rat)).length := by
+        simp [hP] <;> omega
       by_cases h : t < r.D - r.tao
-      · rw [if_pos (by omega), if_pos h]
-      · rw [if_neg (by omega), if_neg h]
+      · rw [if_pos ⟨by omega, by omega, hl⟩, if_pos ⟨hc.1, hc.2.1, hc.2.2, h⟩]
+      · rw [if_neg (fun h' => h (by have := h'.2.1; omega)), if_neg (fun h' => h h'.2.2.2)]
   · have hrhs : (if (1 < r.D ∧ 0 < r.tao ∧ r.tao < r.D ∧ t < r.D - r.tao) then (0 : Rat) else 1) = 1 :=
       if_neg (by intro h; exact hc ⟨h.1, h.2.1, h.2.2.1⟩)
     rw [hrhs, if_neg hc]
@@ -233,7 +236,7 @@ theorem upper_on (r : CHPR) (hwf : CommitWF r) (hon : r.incOn = true) (t : Nat) 
 
 theorem lower_start (r : CHPR) (hwf : CommitWF r) (hs : r.incStart = true) (t : Nat) (ht : t < r.T) :
     r.lower.getD (r.layout.start t) 0 =
-      if (1 < r.R ∧ 0 < r.tar ∧ r.tar < r.R ∧ r.T + t < r.R - r.tar) then 1 else 0 := by
+      0 := by
   have hon := hwf.hso hs
   have hP := lower_pre_len r hwf
   have hst : r.layout.startIdx = r.layout.onIdx + r.T := rfl
@@ -244,16 +247,12 @@ theorem lower_start (r : CHPR) (hwf : CommitWF r) (hs : r.incStart = true) (t : 
   simp only [hon, hs, and_self, if_true, true_and]
   by_cases hc : 1 < r.R ∧ 0 < r.tar ∧ r.tar < r.R
   · rw [if_pos hc, getD_setSlice, getD_blk3 P o r.T 0 0 hP t ht]
-    simp [hP, hc, ht]
-    by_cases h : r.T + t < r.R - r.tar
-    · rw [if_pos (by omega), if_pos h]
-    · rw [if_neg (by omega), if_neg h]
+    rw [if_neg (fun h' => by have := h'.2.1; omega)]
   · rw [if_neg hc, getD_blk3 P o r.T 0 0 hP t ht]
-    rw [if_neg (by intro h; exact hc ⟨h.1, h.2.1, h.2.2.1⟩)]
 
 theorem upper_start (r : CHPR) (hwf : CommitWF r) (hs : r.incStart = true) (t : Nat) (ht : t < r.T) :
     r.upper.getD (r.layout.start t) 0 =
-      if (1 < r.D ∧ 0 < r.tao ∧ r.tao < r.D ∧ r.T + t < r.D - r.tao) then 0 else 1 := by
+      1 := by
   have hon := hwf.hso hs
   have hP := upper_pre_len r hwf
   have hst : r.layout.startIdx = r.layout.onIdx + r.T := rfl
@@ -263,12 +262,8 @@ theorem upper_start (r : CHPR) (hwf : CommitWF r) (hs : r.incStart = true) (t : 
   simp only [hon, hs, and_self, if_true]
   by_cases hc : 1 < r.D ∧ 0 < r.tao ∧ r.tao < r.D
   · rw [if_pos hc, getD_setSlice, getD_blk3 P o r.T 1 1 hP t ht]
-    simp [hP, hc, ht]
-    by_cases h : r.T + t < r.D - r.tao
-    · rw [if_pos (by omega), if_pos h]
-    · rw [if_neg (by omega), if_neg h]
+    rw [if_neg (fun h' => by have := h'.2.1; omega)]
   · rw [if_neg hc, getD_blk3 P o r.T 1 1 hP t ht]
-    rw [if_neg (by intro h; exact hc ⟨h.1, h.2.1, h.2.2.1⟩)]
 
 theorem startDef_bool (r : CHPR) (x : Vec) (i : Nat) (a b c : Bool)
     (h1 : x (r.layout.on (i+1)) = b2r a) (h2 : x (r.layout.on i) = b2r b) (h3 : x (r.layout.start (i+1)) = b2r c) :
@@ -399,24 +394,11 @@ theorem P_bon (hwf : CommitWF r) (ho : r.incOn = true)
 
 theorem P_bst (hwf : CommitWF r) (hs : r.incStart = true)
     (hst : ∀ t, t < r.T → x (r.layout.start t) = b2r (stf t)) :
-    (∀ t, t < r.T → r.lower.getD (r.layout.start t) 0 ≤ x (r.layout.start t) ∧
-        x (r.layout.start t) ≤ r.upper.getD (r.layout.start t) 0) ↔
-      ((0 < r.tar → ∀ t, r.T + t < r.R - r.tar → t < r.T → stf t = true) ∧
-       (0 < r.tao → ∀ t, r.T + t < r.D - r.tao → t < r.T → stf t = false)) := by
-  constructor
-  · intro h
-    constructor
-    · intro h0 t h1 ht
-      have := (h t ht).1
-      rw [lower_start r hwf hs t ht, hst t ht, ge_one_bool] at this
-      exact this ⟨by omega, h0, by omega, h1⟩
-    · intro h0 t h1 ht
-      have := (h t ht).2
-      rw [upper_start r hwf hs t ht, hst t ht, le_zero_bool] at this
-      exact this ⟨by omega, h0, by omega, h1⟩
-  · rintro ⟨hA, hB⟩ t ht
-    rw [lower_start r hwf hs t ht, upper_start r hwf hs t ht, hst t ht, ge_one_bool, le_zero_bool]
-    exact ⟨fun h => hA h.2.1 t h.2.2.2 ht, fun h => hB h.2.1 t h.2.2.2 ht⟩
+    ∀ t, t < r.T → r.lower.getD (r.layout.start t) 0 ≤ x (r.layout.start t) ∧
+        x (r.layout.start t) ≤ r.upper.getD (r.layout.start t) 0 := by
+  intro t ht
+  rw [lower_start r hwf hs t ht, upper_start r hwf hs t ht, hst t ht]
+  cases stf t <;> simp [b2r] <;> grind
 
 theorem b2r_cases (b : Bool) : b2r b = 0 ∨ b2r b = 1 := by cases b <;> simp [b2r]
 
@@ -452,7 +434,7 @@ theorem specF_of_R_le_one (p : UCP) (T : Nat) (on : Nat → Bool) (hR : p.R ≤ 
 
 theorem commit_feasible_imp_spec (r : CHPR) (hwf : CommitWF r) (on : List Bool) (hlen : on.length = r.T) :
     CommitFeasible r on → MinUpDown (ucp r) on := by
-  rintro ⟨x, hon, h01, hrows, hbon, hbst⟩
+  rintro ⟨x, hon, h01, hrows, hbon, _⟩
   unfold MinUpDown; rw [hlen]
   have hon' : ∀ t, t < r.T → x (r.layout.on t) = b2r (fn on t) := hon
   have hrowsS : ∀ row ∈ r.startRows, row.Sat x := fun row h =>
@@ -482,8 +464,7 @@ theorem commit_feasible_imp_spec (r : CHPR) (hwf : CommitWF r) (on : List Bool) 
     obtain ⟨c1, c2⟩ := (P_start r x (fn on) stf hwf hs hon' hst).1 hrowsS
     have c3 := (P_run r x (fn on) stf hs hon' hst).1 hrowsR
     obtain ⟨c4, _⟩ := (P_bon r x (fn on) hwf (hwf.hso hs) hon').1 (hbon (hwf.hso hs))
-    obtain ⟨c5, c9⟩ := (P_bst r x stf hwf hs hst).1 (hbst hs)
-    exact rowsF_imp_specF (ucp r) r.T (fn on) stf ⟨c1, c2, c3, c4, c5, c6, c7, c8, c9⟩
+    exact rowsF_imp_specF (ucp r) r.T (fn on) stf ⟨c1, c2, c3, c4, c6, c7, c8⟩
   · have hR : r.R ≤ 1 := by
       apply Nat.le_of_not_lt; intro h; exact hs (hwf.hR h)
     exact specF_of_R_le_one (ucp r) r.T (fn on) hR c6 c7 c8
@@ -492,7 +473,7 @@ theorem spec_imp_commit_feasible (r : CHPR) (hwf : CommitWF r) (on : List Bool) 
     MinUpDown (ucp r) on → CommitFeasible r on := by
   intro h
   unfold MinUpDown at h; rw [hlen] at h
-  obtain ⟨c1, c2, c3, c4, c5, c6, c7, c8, c9⟩ := specF_imp_rowsF (ucp r) r.T (fn on) h
+  obtain ⟨c1, c2, c3, c4, c6, c7, c8⟩ := specF_imp_rowsF (ucp r) r.T (fn on) h
   let stf := startOf (ucp r) r.T (fn on)
   let o := r.layout.onIdx
   let x : Vec := fun j =>
@@ -525,7 +506,7 @@ theorem spec_imp_commit_feasible (r : CHPR) (hwf : CommitWF r) (on : List Bool) 
         exact (P_run r x (fn on) stf hs hon hst).2 c3 row hrow
     · exact (P_down r x (fn on) hon).2 ⟨c6, c7⟩ row hrow
   · intro ho; exact (P_bon r x (fn on) hwf ho hon).2 ⟨c4, c8⟩
-  · intro hs; exact (P_bst r x stf hwf hs hst).2 ⟨c5, c9⟩
+  · intro hs; exact P_bst r x stf hwf hs hst
 
 theorem commit_rows_iff_spec (r : CHPR) (hwf : CommitWF r) (on : List Bool) (hlen : on.length = r.T) :
     CommitFeasible r on ↔ MinUpDown (ucp r) on :=
